@@ -583,8 +583,13 @@ func addSyntheticStreams(c *chain, r *rng) {
 		addrs = append(addrs, pad(32, suffix), pad(21, a[:20]), sdk.AccAddress(append(append([]byte{}, a...), 0x14)), pad(255, suffix))
 	}
 	addrs = append(addrs, sdk.AccAddress([]byte{0x01}), sdk.AccAddress([]byte{0x14}))
+	// lengths and leading bytes that coincide with store prefixes (0x11 = 17 is the stream store prefix; a prefix-stripped
+	// stream key begins with the receiver's length byte)
+	lead := pad(20, nil)
+	lead[0] = 0x11
+	addrs = append(addrs, pad(17, nil), pad(17, nil), pad(2, nil), pad(3, nil), lead)
 	n := 0
-	for i := 0; i < 14; i++ {
+	for i := 0; i < 22; i++ {
 		rc := addrs[r.intn(len(addrs))]
 		sn := addrs[r.intn(len(addrs))]
 		if r.chance(1, 2) {
